@@ -280,11 +280,12 @@ def desugar_for_ranges(b, ordinals, g, where):
                 split = (toks[i].start, toks[i + 1].end)
                 break
             i += 1
-        if split is None and rng.startswith("&mut ") and re.match(r"^&mut\s+[A-Za-z_][A-Za-z0-9_.]*$", rng):
+        if split is None and re.match(r"^&(mut\s+)?[A-Za-z_][A-Za-z0-9_.]*$", rng):
             # R21: `for x in &mut VEC { BODY }` => `{ let mut verif_next_K: usize = 0; while verif_next_K < VEC.len()
             # { let x = &mut VEC[verif_next_K]; verif_next_K += 1; BODY } }`  (slice::IterMut visits the elements
             # in index order; BODY cannot mention VEC in the original, so its length is the same in every iteration)
-            vec = rng[len("&mut "):].strip()
+            is_mut = rng.startswith("&mut")
+            vec = rng[len("&mut "):].strip() if is_mut else rng[1:].strip()
             btoks = rustlex.lex(b)
             bpairs = rustlex.match_brackets(btoks)
             close = None
@@ -292,11 +293,11 @@ def desugar_for_ranges(b, ordinals, g, where):
                 if btoks[o].start == bpos:
                     close = btoks[c].start
             new_head = "{ let mut verif_next_%d: usize = 0;\n        while verif_next_%d < %s.len()\n        " % (k, k, vec)
-            body_intro = " let %s = &mut %s[verif_next_%d]; verif_next_%d += 1;" % (var, vec, k, k)
+            body_intro = " let %s = &%s%s[verif_next_%d]; verif_next_%d += 1;" % (var, "mut " if is_mut else "", vec, k, k)
             b = b[:kwpos] + new_head + "{" + body_intro + b[bpos + 1:close + 1] + " }" + b[close + 1:]
             g.rewrites.append({"item": where, "rule": "R21", "loop": k, "old": header.strip(),
                                "new": (new_head + "{" + body_intro).strip(),
-                               "why": "for over `&mut Vec` whose body contains `continue` (unsupported in Verus for-loops) -> index/while desugaring of slice::IterMut"})
+                               "why": "for over `&Vec` / `&mut Vec` whose body contains `continue` (unsupported in Verus for-loops) -> index/while desugaring of slice::Iter / IterMut"})
             continue
         if split is None or rng[split[1]:split[1] + 1] == "=":
             raise Undecided("%s: R15 loop #%d: not a half-open integer range: %r" % (where, k, rng))
